@@ -50,7 +50,7 @@ def run(ck):
     # a second user kernel with the SAME file name in another directory and other pore widths / pressure range
     tmpdir2 = tempfile.mkdtemp(prefix="pgv-kernel2-")
     user_path2 = os.path.join(tmpdir2, "user-kernel.csv")
-    uw2 = [0.6, 1.0, 1.6, 2.6, 4.5]
+    uw2 = [0.6, 1.0, 2.6, 9.5, 12.0, 16.0]        # crosses 10 nm: the column labels do not sort like numbers
     up2 = np.geomspace(1e-5, 0.6, 12)
     tab2 = {str(w): [2.0 * (p * 10 ** (5 - w)) / (1 + p * 10 ** (5 - w)) + w * 1.5 / (1 + math.exp(-(math.log10(p) + 5 - w) * 3)) for p in up2] for w in uw2}
     pd.DataFrame(tab2, index=up2).to_csv(user_path2)
@@ -180,6 +180,31 @@ def run(ck):
                 ck.fail_case({"clause": "points outside the requested pressure limits influence the result"}, {"limits": lim, "used": [a, b]})
             lines.append(f"win da L {q(lim[0])} {q(lim[1])} {qlist(pressure)} []")
             plan.append(("win", (a, b)))
+        # points outside the kernel's pressure range that the user excludes with p_limits have no influence (and do not cause a refusal)
+        for i in range(3):
+            inside = np.array(sorted({logu(rng, kp[0] * 1.01, kp[-1] * 0.98) for _ in range(30)}))
+            extra = np.array([min(0.9999, kp[-1] * 1.001), min(0.99995, kp[-1] * 1.002)])
+            kernel = own_kernel(shipped)
+            wts = np.zeros(len(widths_shipped))
+            for j in rng.sample(range(len(widths_shipped)), 3):
+                wts[j] = rng.uniform(0.1, 1)
+            l_in = np.asarray([kernel[size](inside) for size in kernel]).T @ wts
+            lim = (float(inside[2]) * 0.999, float(inside[-3]) * 1.001)
+            ck.count(("limits-outside", i), bucket="entry point: limits exclude points outside the kernel range")
+
+            def iso2(pp, ll):
+                return pg.PointIsotherm(pressure=pp, loading=ll, material="pgv-synth", adsorbate="N2", temperature=77.355, pressure_mode="relative", pressure_unit=None,
+                                        loading_basis="molar", loading_unit="mmol", material_basis="mass", material_unit="g", temperature_unit="K")
+            try:
+                r_in = pgc.psd_dft(iso2(inside, l_in), kernel="DFT-N2-77K-carbon-slit", branch="ads", p_limits=lim, bspline_order=0)
+            except CalculationError:
+                continue
+            try:
+                r_ex = pgc.psd_dft(iso2(np.concatenate([inside, extra]), np.concatenate([l_in, [l_in[-1] * 1.1, l_in[-1] * 1.2]])), kernel="DFT-N2-77K-carbon-slit", branch="ads", p_limits=lim, bspline_order=0)
+                if not all(np.array_equal(np.asarray(r_in[k], dtype=float), np.asarray(r_ex[k], dtype=float)) for k in ("pore_distribution", "pore_volume_cumulative", "kernel_loading")):
+                    ck.fail_case({"clause": "points outside the requested pressure limits influence the result"}, {"limits": lim, "extra_points": extra.tolist()})
+            except Exception as e:  # noqa
+                ck.fail_case({"clause": "points outside the requested pressure limits influence the result", "how": "refused: " + type(e).__name__}, {"limits": lim, "extra_points": extra.tolist(), "error": str(e)[:200]})
         for bad in ([kp[-1] * 1.5], [-1e-3], [kp[-1] * 1.0001]):
             pressure = np.array(sorted([float(kp[3]), float(kp[10]), float(kp[20])] + bad))
             ck.count(("outside", bad[0]), bucket="outside kernel range")
